@@ -4,14 +4,18 @@ import (
 	"encoding/json"
 	"flag"
 	"fmt"
+	"io"
 	"reflect"
 	"sort"
 	"strconv"
 	"strings"
+	"sync"
+	"time"
 
 	sio "github.com/karagenc/socket.io-go"
 	"github.com/karagenc/socket.io-go/parser"
 	jsonparser "github.com/karagenc/socket.io-go/parser/json"
+	"github.com/karagenc/socket.io-go/parser/json/serializer"
 	"github.com/karagenc/socket.io-go/parser/json/serializer/stdjson"
 
 	"verifharness/vk"
@@ -601,8 +605,18 @@ func c9cloneBufs(bs [][]byte) [][]byte {
 // c9runCase: v is what Encode gets (a *[]any for events / acks, a struct or pointer for control
 // packets, nil); argTypes are the handler types for decode.
 func c9runCase(label string, typ parser.PacketType, nsp string, id *uint64, v any, argTypes []reflect.Type, nbin int) c9codecCase {
+	return c9runCaseOn(nil, label, typ, nsp, id, v, argTypes, nbin)
+}
+
+// c9runCaseOn: enc is the parser Encode is called on (nil: a fresh one); it may be shared with
+// other goroutines that are encoding their own values at the same time. Decoding always uses a
+// parser of its own.
+func c9runCaseOn(enc parser.Parser, label string, typ parser.PacketType, nsp string, id *uint64, v any, argTypes []reflect.Type, nbin int) c9codecCase {
 	creator := jsonparser.NewCreator(0, stdjson.New())
-	p := creator()
+	p := enc
+	if p == nil {
+		p = creator()
+	}
 	c := c9codecCase{Label: label, NBin: nbin}
 	h := &parser.PacketHeader{Type: typ, Namespace: nsp, ID: id}
 	h0 := *h
@@ -727,9 +741,18 @@ func (g *c9gen) header() (string, *uint64) {
 }
 
 func c9genCase(r *vk.Rand, i int, hard bool) c9codecCase {
+	return c9genCaseOn(nil, "", false, r, i, hard)
+}
+
+// c9genCaseOn: as c9genCase, encoding on enc; forceBin: every packet is an EVENT / ACK with at
+// least one attachment.
+func c9genCaseOn(enc parser.Parser, tag string, forceBin bool, r *vk.Rand, i int, hard bool) c9codecCase {
 	g := &c9gen{r: r}
 	nsp, id := g.header()
 	kind := r.Intn(10)
+	if forceBin {
+		kind = r.Intn(8)
+	}
 	switch {
 	case kind <= 5: // EVENT
 		name := g.str()
@@ -737,9 +760,14 @@ func c9genCase(r *vk.Rand, i int, hard bool) c9codecCase {
 			name = c9strMenu[3+r.Intn(6)] // backslash / quote names
 		}
 		n := r.Intn(4)
-		bin := r.Intn(3) != 0
+		bin := r.Intn(3) != 0 || forceBin
 		args := []any{name}
 		types := []reflect.Type{}
+		if forceBin {
+			b := c9Bin(g.bin())
+			args = append(args, b)
+			types = append(types, reflect.TypeOf(b))
+		}
 		for j := 0; j < n; j++ {
 			a := g.genAny(3, bin, hard)
 			args = append(args, a)
@@ -749,12 +777,17 @@ func c9genCase(r *vk.Rand, i int, hard bool) c9codecCase {
 				types = append(types, reflect.TypeOf(a))
 			}
 		}
-		return c9runCase(fmt.Sprintf("event#%d", i), parser.PacketTypeEvent, nsp, id, &args, types, g.nbin)
+		return c9runCaseOn(enc, tag+fmt.Sprintf("event#%d", i), parser.PacketTypeEvent, nsp, id, &args, types, g.nbin)
 	case kind <= 7: // ACK
 		n := r.Intn(4)
-		bin := r.Intn(2) == 0
+		bin := r.Intn(2) == 0 || forceBin
 		args := []any{}
 		types := []reflect.Type{}
+		if forceBin {
+			b := c9Bin(g.bin())
+			args = append(args, b)
+			types = append(types, reflect.TypeOf(b))
+		}
 		for j := 0; j < n; j++ {
 			a := g.genAny(3, bin, hard)
 			args = append(args, a)
@@ -768,7 +801,7 @@ func c9genCase(r *vk.Rand, i int, hard bool) c9codecCase {
 			x := uint64(r.Intn(100))
 			id = &x
 		}
-		return c9runCase(fmt.Sprintf("ack#%d", i), parser.PacketTypeAck, nsp, id, &args, types, g.nbin)
+		return c9runCaseOn(enc, tag+fmt.Sprintf("ack#%d", i), parser.PacketTypeAck, nsp, id, &args, types, g.nbin)
 	case kind == 8: // CONNECT / CONNECT_ERROR with a payload (no binary: those types are never deconstructed)
 		typ := parser.PacketTypeConnect
 		if r.Bool() {
@@ -776,15 +809,15 @@ func c9genCase(r *vk.Rand, i int, hard bool) c9codecCase {
 		}
 		b := &c9tB{N: g.i64(false), S: g.str(), L: []c9Bin{}}
 		if r.Bool() {
-			return c9runCase(fmt.Sprintf("ctl-val#%d", i), typ, nsp, nil, *b, []reflect.Type{reflect.TypeOf(b)}, 0)
+			return c9runCaseOn(enc, tag+fmt.Sprintf("ctl-val#%d", i), typ, nsp, nil, *b, []reflect.Type{reflect.TypeOf(b)}, 0)
 		}
-		return c9runCase(fmt.Sprintf("ctl#%d", i), typ, nsp, nil, b, []reflect.Type{reflect.TypeOf(b)}, 0)
+		return c9runCaseOn(enc, tag+fmt.Sprintf("ctl#%d", i), typ, nsp, nil, b, []reflect.Type{reflect.TypeOf(b)}, 0)
 	default: // no payload
 		typ := []parser.PacketType{parser.PacketTypeConnect, parser.PacketTypeDisconnect, parser.PacketTypeEvent, parser.PacketTypeAck, parser.PacketTypeConnectError}[r.Intn(5)]
 		if typ == parser.PacketTypeEvent || typ == parser.PacketTypeAck {
 			typ = parser.PacketTypeDisconnect
 		}
-		return c9runCase(fmt.Sprintf("nil#%d", i), typ, nsp, id, nil, []reflect.Type{}, 0)
+		return c9runCaseOn(enc, tag+fmt.Sprintf("nil#%d", i), typ, nsp, id, nil, []reflect.Type{}, 0)
 	}
 }
 
@@ -960,10 +993,103 @@ func c9jsonSuite(r *vk.Rand, n int, out *vk.Out) {
 	}
 }
 
+// ---------------------------------------------------------------- concurrent use of one parser
+// c9gate: a rendezvous with a timeout. Every goroutine that is inside Encode arrives here each
+// time the parser calls the JSON library (once per placeholder, once for the payload), so that
+// the Encode calls of the goroutines overlap phase by phase instead of by chance. A goroutine
+// that waits longer than the timeout releases everybody (the others may have nothing to encode).
+type c9gate struct {
+	mu      sync.Mutex
+	n       int
+	waiting int
+	ch      chan struct{}
+	timeout time.Duration
+}
+
+func (g *c9gate) arrive() {
+	g.mu.Lock()
+	g.waiting++
+	ch := g.ch
+	if g.waiting >= g.n {
+		g.waiting = 0
+		g.ch = make(chan struct{})
+		close(ch)
+		g.mu.Unlock()
+		return
+	}
+	g.mu.Unlock()
+	select {
+	case <-ch:
+	case <-time.After(g.timeout):
+		g.mu.Lock()
+		if g.ch == ch {
+			g.waiting = 0
+			g.ch = make(chan struct{})
+			close(ch)
+		}
+		g.mu.Unlock()
+	}
+}
+
+type c9gateJSON struct {
+	serializer.JSONSerializer
+	g *c9gate
+}
+
+func (s c9gateJSON) Marshal(v any) ([]byte, error) {
+	s.g.arrive()
+	return s.JSONSerializer.Marshal(v)
+}
+
+func (s c9gateJSON) NewEncoder(w io.Writer) serializer.JSONEncoder {
+	return c9gateEnc{s.JSONSerializer.NewEncoder(w), s.g}
+}
+
+type c9gateEnc struct {
+	e serializer.JSONEncoder
+	g *c9gate
+}
+
+func (e c9gateEnc) Encode(v any) error {
+	e.g.arrive()
+	return e.e.Encode(v)
+}
+
+// c9concSuite: G goroutines, each with its own generator and its own values, all encoding on ONE
+// parser (as the goroutines emitting on one socket and the broadcasts of one adapter do); every
+// goroutine decodes its frames with a parser of its own. Each row is an ordinary codec case: what
+// its Encode calls returned and did to its values must be what they do when run alone.
+func c9concSuite(seed uint64, goroutines, per int, out *vk.Out) {
+	gate := &c9gate{n: goroutines, ch: make(chan struct{}), timeout: 2 * time.Millisecond}
+	shared := jsonparser.NewCreator(0, c9gateJSON{stdjson.New(), gate})()
+	rows := make([][]c9codecCase, goroutines)
+	start := make(chan struct{})
+	var wg sync.WaitGroup
+	for gi := 0; gi < goroutines; gi++ {
+		wg.Add(1)
+		go func(gi int) {
+			defer wg.Done()
+			r := vk.NewRand(seed*1000003 + uint64(gi)*7919 + 1)
+			<-start
+			for i := 0; i < per; i++ {
+				rows[gi] = append(rows[gi], c9genCaseOn(shared, fmt.Sprintf("g%d:", gi), true, r.Fork(), i, false))
+			}
+		}(gi)
+	}
+	close(start)
+	wg.Wait()
+	for _, rs := range rows {
+		for _, c := range rs {
+			out.Put(c)
+		}
+	}
+}
+
 func siocodecMain(args []string) error {
 	fs := flag.NewFlagSet("siocodec", flag.ExitOnError)
 	seed := fs.Uint64("seed", 1, "")
-	mode := fs.String("mode", "codec", "codec|fixed|json")
+	mode := fs.String("mode", "codec", "codec|fixed|json|conc")
+	goroutines := fs.Int("g", 4, "goroutines sharing one parser (conc)")
 	n := fs.Int("n", 300, "number of generated cases")
 	hard := fs.Bool("hard", false, "include values Encode is known to refuse")
 	outp := fs.String("out", "-", "")
@@ -981,6 +1107,8 @@ func siocodecMain(args []string) error {
 		}
 	case "json":
 		c9jsonSuite(r, *n, out)
+	case "conc":
+		c9concSuite(*seed, *goroutines, *n, out)
 	default:
 		for i := 0; i < *n; i++ {
 			out.Put(c9genCase(r.Fork(), i, *hard))
